@@ -4,6 +4,9 @@ cd /verif || exit 1
 if [ -n "$(git -C /repo status --porcelain)" ]; then echo "WARNING: /repo working tree is dirty"; fi
 python3 tools/mkmanifest.py >/dev/null || exit 1
 rc=0
+# what MANIFEST.setup_cmd builds: the whole library in one environment (name clashes between
+# modules that no single property imports together only show here)
+if ! (cd lean && lake build ALock alock-driver alock-accept >/dev/null 2>&1); then echo "FAILED: lake build ALock (setup_cmd)"; rc=1; fi
 for i in $(python3 -c "import json;print(' '.join(c['property_id'] for c in json.load(open('MANIFEST.json'))['checks']))"); do
   python3 tools/check.py $i --tier ${1:-quick} | tail -3 || rc=1
 done
